@@ -1363,7 +1363,10 @@ def perturb_all(ctx, it, b, rng, budget):
 # -- overflow mutations -----------------------------------------------------
 OVF_SKIP = {"contentType", "handshakeType", "serverType", "encExtType",
             "cert", "hrr", "ssl2", "cipherSuite", "certificateType",
-            "hash_length", "private", "time", "extType"}
+            "hash_length", "private", "time", "extType",
+            # DER structure validated by the parser: growing it is a
+            # semantic change, not a framing one
+            "subject_public_key_info"}
 OVF_CTX_VERSION = {"Certificate", "CompressedCertificate",
                    "CertificateRequest", "ServerKeyExchange",
                    "ClientKeyExchange", "CertificateVerify", "Finished"}
